@@ -901,8 +901,13 @@ def check_reapply_and_reset(ctx):
             and U(t.expand(c.expr.left)).endswith('.name')]
         present = any(c.pol for c in asked)
         stored = any(e.kind == 'store' and isinstance(
-            e.node, ast.Subscript) and U(e.node.value) == 'self.rules'
-            for e in p.events)
+            e.node, ast.Subscript) and (U(e.node.value) == 'self.rules' or U(
+                t.expand(e.node.slice)).endswith('.name'))
+            for e in p.events) or any(
+                e.kind == 'call' and method_call(e.node) and U(
+                    method_call(e.node)[0]) == 'self.rules' and method_call(
+                        e.node)[1] in ('update', 'setdefault')
+                for e in p.events)
         if not present and not stored:
             unmerged = p
     ctx.ob('C10.DEFAULTS', unmerged is None, ctx.where(lr.module, lr.node),
